@@ -12,10 +12,38 @@ IMPL = ('parsec/class/parsec_hash_table.c (parsec_hash_table_insert_impl, _find,
         '_unlock_bucket_handle_impl, _nolock_find_in_old_tables, _nolock_remove_from_old_tables, _resize, _universal_rehash, _for_all), parsec/class/parsec_hash_table.h')
 ENGINE = 'lean-coop'
 LEVEL = 'proof'
-LEVEL_TEXT = ''
-LEVEL_NOTE = ''
-TECHNIQUE = ''
-ASSUMPTIONS = []
+LEVEL_TEXT = ('Lean 4 theorem C32_refines_map: for EVERY hash function that lands in the table, every max_collisions_hint / max_table_nb_bits, any number of threads running any programs of '
+              'insert / find / remove / find-or-insert (lock_bucket; nolock_find; nolock_insert; unlock_bucket) and EVERY interleaving at the granularity of one step per synchronisation action '
+              '(lock of a top-level bucket with the work under it, the racy read head = cur->next, lock of an old bucket with scan and unlink, fetch-dec of used_buckets, CAS of prev_head->next, every '
+              'unlock, rdlock, rdunlock, wrlock + resize, wrunlock), there is a sequential history of the map Key -> Item with the same per-thread operations and results (find returns the stored item '
+              'or NULL, remove returns and deletes it, insert adds an absent key, find-or-insert returns the stored item or stores its own) that respects real-time order and ends in exactly the '
+              'content of the tables plus the items a find is carrying to the top-level table - across any number of resizes, partial migrations and unlinked older tables (forward simulation; '
+              'rely/guarantee invariant: a thread in a top-level critical section keeps its locks, older tables only lose items, nothing appears in a bucket it holds, used_buckets = non-empty '
+              'buckets + pending decrements, every non-empty table stays linked from the top-level table). C32_store_is_map: every chained item is in the bucket of its key, cur_len = chain length, '
+              'no item or key chained twice, every non-empty table linked. C32_for_all: in every reachable state without an operation in progress for_all passes exactly the items of the map, each '
+              'once. C32_atomic_sections: two threads inside top-level critical sections work on different buckets of the same top-level table (a writer excludes everybody), so operations on one key '
+              'are serialised; a carried item\'s top-level bucket is held by its carrier. Tie, on every run: (a) sequential histories on the real API (ASan/UBSan) with colliding keys, hint 0-3 and few '
+              'bits, compared with the compiled model structurally after every call (every table in allocation order, used_buckets, next, every chain in order, cur_len, lock words, warning flag); '
+              '(b) the real code under the cooperative scheduler (bucket-lock CAS, used_buckets fetch-dec, next CAS and rwlock waits as park points), every step replayed on the model with the same '
+              'structural comparison: exhaustive DFS over all schedules for small 2-3 thread programs, PCT and PRNG schedules for those and random programs; C32_macro_is_micro proves each scheduler '
+              'step is a run of model steps; (c) 2-16 free-running threads, every burst checked per key by a Wing-Gong search with the for_all content as final state, plus item conservation.')
+LEVEL_NOTE = ('The read-write lock is modelled by its specification (a writer is admitted only when nobody is inside, a reader only when no writer is inside; waiting arbitrary) - its implementation is '
+              'property C33; in the cooperative runs the harness tells the model when the real phase-fair lock made a thread wait, and the model checks that every admission it sees respects the '
+              'specification. Caller discipline as hypothesis, decided on caller-side bookkeeping and enforced by rejection in model and harness: even keys are managed with insert (no second insert of '
+              'a key while an earlier one is outstanding), odd keys with find-or-insert only, an item object is handed over only while it is outside the table. key_equal is equality and key_hash a '
+              'function (the harness runs the generic 64-bit functions and a colliding custom pair). Memory model: sequential consistency; table heads are never freed before fini (true of the code). '
+              'The racy read of head->next that is the argument of the CAS is merged with the preceding fetch-dec step (they commute with the steps of the other threads, see notes). '
+              'Not covered: lock-freedom/deadlock-freedom as a theorem (the cooperative runs report a deadlock if no thread can move; none seen), parsec_hash_table_stat, fini, the nolock_* API used '
+              'without lock_bucket, the HELPFIRST branch (not compiled). The 16-thread stress and the Wing-Gong oracle are a search for counterexamples, not part of the proof. Trusted: Lean kernel, '
+              'the cooperative scheduler and hook H1, the harness (it reads the file-private bucket layout, checked by a self-test at start).')
+TECHNIQUE = ('Lean 4 proof (rely/guarantee inductive invariant + forward simulation to a sequential map over all interleavings of synchronisation actions); tie = structural differential of the real '
+             'code against the compiled model after every sequential call and after every cooperative-scheduler step (exhaustive for small configurations), plus free-running stress with per-key '
+             'Wing-Gong and conservation oracles')
+ASSUMPTIONS = ['the read-write lock meets its specification (property C33): writers exclude everybody, readers exclude writers',
+               'unique-key usage: parsec_hash_table_insert is called for a key only while no earlier insert of that key is outstanding; such keys are not used with the find-or-insert idiom; '
+               'an item object is inserted only while it is outside the table',
+               'key_equal is equality of keys, key_hash is a function of the key; the universal re-hash lands in the table (rehash_lt proves it for the real function)',
+               'sequential consistency; table heads are not freed while the table is in use']
 
 M64 = (1 << 64) - 1
 
@@ -386,14 +414,14 @@ def small_coop(ctx):
     keys 2,4,6 / 3 collide at nb=1 (hmode 0): rehash(2,1)=rehash(3,1)=rehash(6,1)=1, rehash(4,1)=0"""
     q = ctx.quick
     return [
-        ('1 1 5 0 P i2,1 i4,2 i6,3 T f2 T r6', 100000),                  # find migrates 2, remove takes 6 out of the same old bucket
-        ('1 1 5 0 P i2,1 i4,2 i6,3 T f2 T f6', 100000),                  # two migrations out of the same old bucket: the last one unlinks the table
-        ('1 1 5 0 P i2,1 i6,3 T r2 T r6 T f4', 400 if q else 100000),
-        ('1 0 4 0 P i2,1 T i4,2 T i6,3', 400 if q else 100000),          # two inserts both ask for a resize: only one may happen per table
-        ('1 0 5 0 P i2,1 i4,2 T f2 T f4 T i6,3', 300 if q else 60000),    # unlink of two old tables while a resize is pending
-        ('1 1 5 0 P u3,1 T u3,2 T u3,3 r3', 400 if q else 100000),       # find-or-insert against find-or-insert and remove
-        ('1 1 5 0 P i2,1 i6,2 u3,3 T u3,4 T r3 T f2', 300 if q else 60000),
-        ('1 1 4 1 P i8,1 i10,2 i12,3 T f8 r10 T r12 f10', 300 if q else 60000),   # same 64-bit hash: key_equal decides, chain never splits
+        ('1 1 5 0 P i2,1 i4,2 i6,3 T f2 T r6', 20000),                  # find migrates 2, remove takes 6 out of the same old bucket
+        ('1 1 5 0 P i2,1 i4,2 i6,3 T f2 T f6', 20000),                  # two migrations out of the same old bucket: the last one unlinks the table
+        ('1 1 5 0 P i2,1 i6,3 T r2 T r6 T f4', 400 if q else 8000),
+        ('1 0 4 0 P i2,1 T i4,2 T i6,3', 400 if q else 8000),          # two inserts both ask for a resize: only one may happen per table
+        ('1 0 5 0 P i2,1 i4,2 T f2 T f4 T i6,3', 300 if q else 6000),    # unlink of two old tables while a resize is pending
+        ('1 1 5 0 P u3,1 T u3,2 T u3,3 r3', 400 if q else 8000),       # find-or-insert against find-or-insert and remove
+        ('1 1 5 0 P i2,1 i6,2 u3,3 T u3,4 T r3 T f2', 300 if q else 6000),
+        ('1 1 4 1 P i8,1 i10,2 i12,3 T f8 r10 T r12 f10', 300 if q else 6000),   # same 64-bit hash: key_equal decides, chain never splits
     ]
 
 
@@ -403,7 +431,7 @@ def run_coop_batch(exe, lines, driver_ok, timeout):
     ops, impl, stats, viols = pv.parse_transcript(text)
     out['stats'] = stats
     for v in viols:
-        out['viol'].append({'key': 'C32-harness-oracle', 'what': v, 'case': lines[0] if len(lines) == 1 else v})
+        out['viol'].append({'key': 'C32-harness-oracle', 'what': v, 'case': v.split('; case: ', 1)[1] if '; case: ' in v else (lines[0] if len(lines) == 1 else v)})
     if rc != 0:
         out['viol'].append({'key': 'C32-harness-exit-%d' % rc, 'what': 'harness exited with %d after %d lines; last op: %s; stderr: %s' % (
             rc, len(ops), ops[-1] if ops else None, err[-500:]), 'case': lines[0] if lines else ''})
@@ -572,27 +600,27 @@ def run(ctx, res, lines=None):
     env = dict(os.environ, ASAN_OPTIONS='detect_leaks=1:abort_on_error=0', UBSAN_OPTIONS='print_stacktrace=1')
     cseq, ccoop = corpus_cases()
     stats_all, dist = {}, {}
-    # ---------------- replay of recorded violations
+    # ---------------- replay of recorded violations: only the recorded cases
+    replay_seq, replay_coop, replay_stress = None, None, None
     if lines is not None:
-        outs = [run_coop_batch(exe, ['case 0 ' + l if not l.startswith('case') else l], ctx.driver_ok, 600) for l in lines if ' coop ' in (' ' + l)]
-        for o in outs:
-            res.disagreements += o['dis']; res.violations += o['viol']; res.evaluations += o['runs']
-        return
+        replay_seq = [[x.strip() for x in l[4:].split(' ; ')] for l in lines if l.startswith('seq ')]
+        replay_coop = [l for l in lines if ' coop ' in (' ' + l)]
+        replay_stress = [l for l in lines if l.startswith('stress ')]
     # ---------------- (1) sequential histories, structural comparison after every operation
     nseq = 300 if q else 3000
-    cases = cseq + [gen_seq(rng.fork(k), q) for k in range(nseq)]
+    cases = cseq + [gen_seq(rng.fork(k), q) for k in range(nseq)] if lines is None else replay_seq
     chunk = 100 if q else 250
     seq_total = {'resizes': 0, 'migr': 0, 'unlinks': 0, 'warn': 0, 'found': 0, 'rej': 0}
 
     def seq_batch(cs):
         text = '\n'.join(seq_lines(cs)) + '\n'
-        rc, out, err = pv.sh([exe_san], input=text, timeout=3000, env=env)
+        rc, out, err = pv.sh([exe_san], input=text, timeout=400 if q else 2400, env=env)
         ops, impl, stats, viols = pv.parse_transcript(out)
         model = []
         derr = ''
         rcd = 0
         if ctx.driver_ok:
-            rcd, model, derr = pv.run_driver('pv_C32', seq_lines(cs), timeout=3000)
+            rcd, model, derr = pv.run_driver('pv_C32', seq_lines(cs), timeout=400 if q else 2400)
         return cs, rc, err, ops, impl, stats, viols, rcd, model, derr
     batches = [cases[i:i + chunk] for i in range(0, len(cases), chunk)]
     with ThreadPoolExecutor(max_workers=4 if q else 6) as ex:
@@ -611,7 +639,7 @@ def run(ctx, res, lines=None):
             while j > 0 and not want[min(j, len(want) - 1)].startswith('case'):
                 j -= 1
             res.violations.append({'key': 'C32-seq-crash', 'what': 'sequential harness exited with %d after %d of %d lines (last: %s): %s' % (rc, len(ops), len(want), last, err[-700:]),
-                                   'case': ' ; '.join(want[j:len(ops) + 1][:80])})
+                                   'case': 'seq ' + want[j].split(' ', 3)[3] + ' ; ' + ' ; '.join(want[j + 1:len(ops) + 1][:200])})
         if ctx.driver_ok:
             if rcd != 0:
                 res.disagreements.append({'op': '<driver>', 'impl': '', 'model': 'driver exit %d: %s' % (rcd, derr[-300:])})
@@ -654,25 +682,27 @@ def run(ctx, res, lines=None):
     # ---------------- (2) cooperative scheduler
     batches = []
     k = 0
-    if ccoop:
+    if ccoop and lines is None:
         batches.append(['case %d %s' % (i, l) for i, l in enumerate(ccoop)])
+    if lines is not None:
+        batches += [[l if l.startswith('case') else 'case 0 ' + l] for l in replay_coop]
     pct = []
-    for c, cap in small_coop(ctx):
+    for c, cap in (small_coop(ctx) if lines is None else []):
         batches.append(['case %d coop %s | dfs %d' % (k, c, cap)]); k += 1
         for _ in range(30 if q else 600):
             pct.append('case %d coop %s | pct %d %d' % (k, c, rng.next() % 1000000007, rng.range(2, 4))); k += 1
     batches += [pct[i:i + 120] for i in range(0, len(pct), 120)]
     rnd = []
-    for _ in range(400 if q else 12000):
+    for _ in range((400 if q else 6000) if lines is None else 0):
         pol = 'rng %d' % (rng.next() % 1000000007) if rng.chance(1, 2) else 'pct %d %d' % (rng.next() % 1000000007, rng.range(2, 4))
         rnd.append('case %d coop %s | %s' % (k, gen_coop(rng, q), pol)); k += 1
     ch = 100 if q else 500
     batches += [rnd[i:i + ch] for i in range(0, len(rnd), ch)]
     with ThreadPoolExecutor(max_workers=4 if q else 6) as ex:
-        outs = list(ex.map(lambda b: run_coop_batch(exe, b, ctx.driver_ok, 3000), batches))
+        outs = list(ex.map(lambda b: run_coop_batch(exe, b, ctx.driver_ok, 400 if q else 2400), batches))
     # ---------------- (3) free-running stress
     with ThreadPoolExecutor(max_workers=2) as ex:
-        souts = list(ex.map(lambda l: run_stress(exe, l, 3000), stress_lines(ctx, rng)))
+        souts = list(ex.map(lambda l: run_stress(exe, l, 300 if q else 1500), stress_lines(ctx, rng) if lines is None else replay_stress))
     if not ctx.driver_ok:
         res.notes.append('model driver unavailable: correspondence not run, oracles only')
     runs = steps = inconclusive = blocked = 0
@@ -724,5 +754,9 @@ def _seq_disagrees(exe, hdr, body, env):
 
 
 def replay(ctx, res, data):
-    lines = [v['case'] for v in data.get('violations', []) if ' coop ' in v.get('case', '')]
+    lines = []
+    for v in list(data.get('violations', [])) + list(data.get('disagreements', [])):
+        c = v.get('case', '')
+        if (c.startswith('seq ') or c.startswith('stress ') or ' coop ' in (' ' + c)) and c not in lines:
+            lines.append(c)
     run(ctx, res, lines=lines or None)
